@@ -3,7 +3,7 @@ CONSTANTS
   Ident = "other"
   Style3 = "block"
   Bits = 3
-  Fams = {"P", "O", "L", "T", "I"}
+  Fams = {"Q", "O", "L", "T", "I"}
   WithBad = FALSE
   WithInv = FALSE
   Dyn = FALSE
